@@ -14,7 +14,12 @@ Oracle (Spec vs Impl): paths are signed by an *independent* signer - the extract
 digest_for_hop (DigestSpec.v) + EVP_DigestSign, never the library - and the library must (a) hash
 exactly the spec octets for every hop, (b) answer VALID, (c) answer not-VALID for single-bit
 flips of every signed field, (d) give the specific codes, (e) refuse a key registered under
-another AS.  (e) fails on the current tree: finding key "ski-only-lookup".
+another AS.  (e) fails on the tree as it stood: finding key "ski-only-lookup".
+
+Two models are proved: Validate.validate (keys by SKI only: /repo as it stood) and
+Validate.validate_fixed (after proposed_fixes/C11-ski-only-lookup.diff; C11_full_after_fix).
+detect_variant() finds out on every run which of the two /repo's key selection matches; all
+Model-vs-Impl comparisons then use that model and the evidence names it.
 """
 import hashlib
 import json
@@ -567,7 +572,7 @@ def error_variants(rnd, env, c):
     mk("suite + counts", lambda d: (d.__setitem__("alg", 7), d.__setitem__("counts", [n + 1, n])))
     mk("AFI + missing key", lambda d: (d.__setitem__("nafi", 9), d.__setitem__("afi", 9), d.__setitem__("table", [])))
     mk("suite + AFI", lambda d: (d.__setitem__("alg", 0), d.__setitem__("nafi", 0), d.__setitem__("afi", 0)))
-    return [(a, b) for a, b in out if b["secs"] and b["sigs"] or True]
+    return out
 
 
 def malformed_variants(rnd, env, c):
@@ -613,7 +618,6 @@ def shrink(env, c, fails, budget=40):
             if mod(d) is False:
                 return False
             if resign and "hopkeys" in d and len(d["hopkeys"]) == len(d["secs"]) and not d.get("no_resign"):
-                keep = d.get("wrong_as")
                 spec_sign(env, d)
             if fails(d):
                 best = d
@@ -782,8 +786,6 @@ def run(chk):
                 c["table"] = [tuple(e) for e in c["table"]]
                 try:
                     examine(env2, c, stats, what="corpus " + o["_file"])
-                    if o.get("wrong_as"):
-                        pass
                 except Finding as f:
                     if c.get("wrong_as") and f.key == "invalid-accepted":
                         f.key = "wrong-as-key-accepted"
